@@ -52,6 +52,11 @@ HOSTILE = [
     ("shaped-single-call-var", '  ask shaped\nbot answer shaped two\n  "Q7$last_user_message Q8"', None),
     ("shaped-steps-inline-jinja", 'bot inform shaped four "Q7{{ 7*7 }}Q8"', "Q749Q8"),
     ("shaped-steps-inline-var", 'bot inform shaped five "Q7$user_message Q8"\nuser ask topic 0', None),
+    # message texts that BEGIN with variable syntax (a price, a variable name): whatever passes them on as an action / event
+    # parameter must not resolve them again
+    ("dollar-price", "$5 is the price. Q8end", None),
+    ("dollar-var-first", "$last_user_message Q8end", None),
+    ("dollar-var-quoted", '  "$user_message Q8end"', None),
     ("shaped-steps-user-only", "user ask something else", None),
     ("shaped-intent-then-steps", 'ask shaped\nbot inform shaped three\n  "Q7{{ 7*7 }}Q8"', "Q749Q8"),
 ]
